@@ -122,6 +122,31 @@ fn check_stream(head_idx: usize, cuts: &[usize]) -> Option<String> {
     if rest != msg[head_len..] { return Some(format!("{desc} expected=rest{:?} actual=rest{:?}", String::from_utf8_lossy(&msg[head_len..]), String::from_utf8_lossy(&rest))); }
     None
 }
+/// the whole request reader: the fields that are not consumed (Content-Type, Expect, Transfer-Encoding are) reach the handler
+/// in the order sent, values intact -- wherever the consumed ones stood
+fn check_request_order(perm: usize) -> Option<String> {
+    use verif_replay::{block_on, ScriptReader, Step};
+    let consumed: [(&str, &str); 3] = [("Content-Type", "text/plain"), ("Expect", "100-continue"), ("Transfer-Encoding", "gzip")];
+    let kept: [(&str, &str); 5] = [("Via", "1.1 first"), ("X-Mid", "m"), ("Via", "1.1 second"), ("x-last", "z"), ("Via", "1.1 third")];
+    // position of each consumed field among the kept ones: perm encodes three positions 0..=5
+    let pos = [perm % 6, (perm / 6) % 6, (perm / 36) % 6];
+    let mut lines: Vec<(String, String)> = Vec::new();
+    for k in 0..=5usize { for (ci, c) in consumed.iter().enumerate() { if pos[ci] == k { lines.push((c.0.to_string(), c.1.to_string())); } } if k < 5 { lines.push((kept[k].0.to_string(), kept[k].1.to_string())); } }
+    let mut msg = b"GET /p?q=1 HTTP/1.1\r\n".to_vec();
+    for (n, v) in &lines { msg.extend_from_slice(format!("{n}: {v}\r\n").as_bytes()); }
+    msg.extend_from_slice(b"\r\n");
+    let desc = format!("reqorder perm={perm}");
+    let r = std::panic::catch_unwind(|| {
+        let mut buf: FixedBuf<4096> = FixedBuf::new();
+        let mut rd = ScriptReader::new(vec![Step::Data(msg.clone()), Step::Eof]);
+        block_on(servlin::internal::read_http_request("127.0.0.1:1".parse().unwrap(), &mut buf, &mut rd))
+    });
+    let req = match r { Err(_) => return Some(format!("{desc} expected=request actual=panic")), Ok(Err(e)) => return Some(format!("{desc} expected=request actual={e:?}")), Ok(Ok(q)) => q };
+    let got: Vec<(String, String)> = req.headers.iter().map(|h| (h.name.as_str().to_string(), h.value.as_str().to_string())).collect();
+    let want: Vec<(String, String)> = kept.iter().map(|(n, v)| (n.to_string(), v.to_string())).collect();
+    if got != want { return Some(format!("{desc} expected=fields in the order sent {want:?} actual={got:?}")); }
+    None
+}
 fn hex(b: &[u8]) -> String { b.iter().map(|x| format!("{x:02x}")).collect() }
 fn unhex(s: &str) -> Vec<u8> { (0..s.len() / 2).map(|i| u8::from_str_radix(&s[2 * i..2 * i + 2], 16).unwrap()).collect() }
 fn main() {
@@ -134,6 +159,10 @@ fn main() {
             let cs = w.split("cuts=[").nth(1).unwrap().split(']').next().unwrap();
             let cuts: Vec<usize> = cs.split(',').filter_map(|x| x.trim().parse().ok()).collect();
             match check_stream(hi, &cuts) { Some(m) => { println!("WITNESS {m}"); std::process::exit(1) } None => { println!("OK witness no longer fails"); std::process::exit(0) } }
+        }
+        if w.starts_with("reqorder ") {
+            let p: usize = w.split("perm=").nth(1).unwrap().split(' ').next().unwrap().parse().unwrap();
+            match check_request_order(p) { Some(m) => { println!("WITNESS {m}"); std::process::exit(1) } None => { println!("OK witness no longer fails"); std::process::exit(0) } }
         }
         if w.starts_with("fields ") {
             let ls: Vec<Vec<u8>> = w.split("lines=").nth(1).unwrap().split(' ').next().unwrap().split(',').map(unhex).collect();
@@ -182,6 +211,7 @@ fn main() {
         n += 1; if let Some(m) = check_stream(hi, &all) { if found.len() < 6 { found.push(m) } }
         if thorough { for c1 in 1..100usize { for c2 in (c1 + 1)..100usize { n += 1; if let Some(m) = check_stream(hi, &[c1, c2]) { if found.len() < 6 { found.push(m) } } } } }
     }
+    for perm in 0..216usize { n += 1; if let Some(m) = check_request_order(perm) { if found.len() < 6 { found.push(m) } } }
     println!("EVALUATED {n}");
     for f in &found { println!("WITNESS {f}"); }
     std::process::exit(if found.is_empty() { 0 } else { 1 });
